@@ -149,9 +149,13 @@ func ctxRequirements(ctx string) (map[string]bool, error) {
 func (P *Prog) guardCuts(fn *ssa.Function, own ssa.Value, req map[string]bool, priv int, atomsSeen map[string]bool) map[Edge]bool {
 	cut := map[Edge]bool{}
 	factEdges(fn, func(e Edge, f Fact) {
-		if f.Kind == "truth" && priv >= 0 {
-			if recv, p, _, ok := authorizeCall(f.V); ok && recv == own && p == priv && f.Holds {
-				cut[e] = true
+		if priv >= 0 {
+			for _, pf := range P.expandFact(f, isAuthorizePrim, 0) {
+				if pf.kind == "truth" && pf.holds && len(pf.args) == 2 && pf.args[0] == own {
+					if k, ok := constInt(pf.args[1]); ok && int(k) == priv {
+						cut[e] = true
+					}
+				}
 			}
 		}
 		if atom, val, ok := P.atomOf(f); ok {
@@ -262,10 +266,10 @@ func checkC05(R *Run) {
 		// priv-exact
 		used := map[int]string{}
 		for _, f2 := range withAnons(fn) {
-			for _, ci := range callsIn(f2) {
-				if c, ok := ci.(*ssa.Call); ok {
-					if recv, p, _, ok := authorizeCall(c); ok && p >= 0 && isOwn(recv, own) {
-						used[p] = P.ipos(ci)
+			for _, pf := range P.primCallsVia(f2, isAuthorizePrim) {
+				if len(pf.args) == 2 && pf.args[0] != nil && isOwn(pf.args[0], own) {
+					if k, ok := constInt(pf.args[1]); ok {
+						used[int(k)] = P.ipos(pf.call)
 						nGuardSites++
 					}
 				}
